@@ -201,7 +201,93 @@ let run_history (hline : string) (ops : string list) =
    | OutOfFuel -> pr "E %s OUTOFFUEL\n" hid);
   flush_buf ()
 
+(* ---------- small-scope state-space exploration (see extract/driver.ml) ----------
+   --explore CAP U MAXSTATES DEPTH START TARGET KIND: every logical tree of the C extension (shape
+   and key ordinals; the C tree never merges, so emptied leaves are part of the shape) reachable by
+   t[k] = v / del t[k] over the ordinals 0..U-1, or every operation sequence of at most DEPTH calls
+   from the start state; one flat history per (state, operation) pair, full dump only at the end. *)
+let ident_c (s : cstate) : string =
+  match s.st_tree with
+  | None -> "-"
+  | Some t ->
+    let b = Buffer.create 256 in
+    let rec go (nd : cnode) =
+      let cap = int_of_nat (ncap nd) and n = int_of_nat (nk nd) in
+      let d = data nd in
+      let keys = take n d in
+      let ks () = List.iter (fun k -> match k with SObj o -> Buffer.add_string b (string_of_int (int_of_z o.kz)); Buffer.add_char b ' ' | _ -> Buffer.add_char b '?') keys in
+      match nty nd with
+      | NLeaf -> Buffer.add_char b '('; ks (); Buffer.add_char b ')'
+      | NBranch -> Buffer.add_char b '['; ks ();
+          List.iter (fun sl -> match sl with SKid c -> go c | _ -> Buffer.add_char b '!') (take (n + 1) (drop cap d));
+          Buffer.add_char b ']' in
+    go t.root; Buffer.contents b
+
+let prefix_keys (spec : string) : int list =
+  match String.split_on_char ':' spec with
+  | ["asc"; n] -> List.init (int_of_string n) (fun i -> i)
+  | ["desc"; n] -> let n = int_of_string n in List.init n (fun i -> n - 1 - i)
+  | ["zig"; n] -> let n = int_of_string n in List.init n (fun i -> if i mod 2 = 0 then i / 2 else n - 1 - i / 2)
+  | ["rnd"; seed; n] ->
+      let n = int_of_string n in
+      let a = Array.init n (fun i -> i) in
+      let st = ref (int_of_string seed * 7919 + 17) in
+      let next m = st := (!st * 1103515245 + 12345) land 0x3fffffff; (!st lsr 8) mod m in
+      for i = n - 1 downto 1 do let j = next (i + 1) in let t = a.(i) in a.(i) <- a.(j); a.(j) <- t done;
+      Array.to_list a
+  | _ -> []
+
+let explore cap u maxstates depth prefix target kind =
+  let (s0, _) = st_init (z_of_int cap) in
+  let setline k sid = Printf.sprintf "set %d.%d v%d" k (sid mod 3) sid in
+  let setop k sid = OSet (key_obj k (sid mod 3), val_obj sid) in
+  let (ss, path0, sid0) = List.fold_left (fun (s, p, sid) k ->
+      let (s', _) = step s (setop k sid) in (s', setline k sid :: p, sid + 1)) (s0, [], 1) (prefix_keys prefix) in
+  let plen0 = List.length path0 in
+  let seen = Hashtbl.create 65536 in
+  let q = Queue.create () in
+  Hashtbl.add seen (ident_c ss) ();
+  Queue.add (ss, path0, sid0) q;
+  let nh = ref 0 and nstates = ref 1 and truncated = ref false and maxh = ref 0 and structural = ref 0 in
+  let tag = Printf.sprintf "xc%d.%d.%s.%d" cap u (String.concat "" (String.split_on_char ':' prefix)) depth in
+  let nnodes (s : cstate) = match s.st_tree with None -> 0 | Some t -> int_of_n t.next_id in
+  while not (Queue.is_empty q) do
+    let (s, path_rev, sid) = Queue.pop q in
+    let plen = List.length path_rev in
+    let path = String.concat "" (List.rev_map (fun l -> l ^ "\n") path_rev) in
+    for k = 0 to u - 1 do
+      List.iter (fun ins ->
+        let line = if ins then setline k sid else Printf.sprintf "del %d.0" k in
+        let op = if ins then setop k sid else ODel (z_of_int k) in
+        let (s', out) = step s op in
+        let probes = Printf.sprintf "get %d.0\nin %d.1\nlen\nkeys\nitems\nit_new %s 1\nit_next 1\nit_next 1\nset %d.2 v%d\nit_next 1\nit_drop 1\n"
+            k ((k + 1) mod u) (if !nh mod 2 = 0 then "k" else "i") ((k + 2) mod u) (sid + 1) in
+        pr "H %s.%d %s cap=%d keys=%s dump=%d\n%s%s\n%s" tag !nh target cap kind (plen + 1) path line probes;
+        incr nh;
+        (match out with
+         | UOOB _ | UNullDeref _ | UFuel -> ()
+         | _ ->
+           if nnodes s' <> nnodes s then incr structural;
+           let id = ident_c s' in
+           if not (Hashtbl.mem seen id) then
+             if depth > 0 && plen + 1 - plen0 >= depth then truncated := true
+             else if !nstates < maxstates then begin
+               Hashtbl.add seen id (); incr nstates;
+               if plen + 1 > !maxh then maxh := plen + 1;
+               Queue.add (s', line :: path_rev, sid + 1) q
+             end else truncated := true);
+        if Buffer.length buf > 60000 then flush_buf ()
+      ) [true; false]
+    done
+  done;
+  flush_buf ();
+  Printf.eprintf "EXPLORE cap=%d keys=%d states=%d transitions=%d longest_path=%d closed=%b structural=%d\n"
+    cap u !nstates !nh !maxh (not !truncated) !structural
+
 let () =
+  if Array.length Sys.argv > 8 && Sys.argv.(1) = "--explore" then begin
+    explore (int_of_string Sys.argv.(2)) (int_of_string Sys.argv.(3)) (int_of_string Sys.argv.(4)) (int_of_string Sys.argv.(5))
+      Sys.argv.(6) Sys.argv.(7) Sys.argv.(8); exit 0 end;
   let ic = open_in Sys.argv.(1) in
   let cur = ref None and acc = ref [] in
   let fin () = match !cur with
